@@ -266,6 +266,7 @@ Proof.
   - case_all; exact E.
   - case_all; exact E.
   - exact E.
+  - case_all; exact E.
 Qed.
 
 Definition clean (ops : list op) : bool := forallb (fun o => negb (touches_empty o)) ops.
@@ -400,6 +401,7 @@ Proof.
     apply linv_do_move; auto. apply agent_cell_in. exact Ha.
   - destruct (agent_cell (s_agents st) a) as [c0|] eqn:Ha; [|exact E]. simpl.
     apply linv_remove; [exact E|]. apply agent_cell_in. exact Ha.
+  - case_all; exact E.
   - case_all; exact E.
   - case_all; exact E.
 Qed.
